@@ -91,3 +91,15 @@ mut("c13_task_grad_retains", "autojac/mtl_backward.py",
     "    grad = Grad([loss], to_differentiate, retain_graph)",
     "    grad = Grad([loss], to_differentiate, True)",
     ["C13"])
+mut("c08_upgrad_depends_on_first_column", "aggregation/upgrad.py",
+    "        U = torch.diag(self.weighting(matrix))",
+    "        U = torch.diag(self.weighting(matrix)) * (1.0 + 0.1 * (matrix[0, 0] > 0))",
+    ["C08"])
+mut("c08_krum_cdist_narrowed", "aggregation/krum.py",
+    "distances = torch.cdist(matrix, matrix, compute_mode=\"donot_use_mm_for_euclid_dist\")",
+    "distances = torch.cdist(matrix[:, : max(1, matrix.shape[1] - 1)], matrix[:, : max(1, matrix.shape[1] - 1)], compute_mode=\"donot_use_mm_for_euclid_dist\")",
+    ["C08"])
+mut("c08_config_n_dependent", "aggregation/config.py",
+    "        return length * unit_target_vector",
+    "        return length * unit_target_vector * (1.0 + 1e-3 * (matrix.shape[1] % 2))",
+    ["C08"])
